@@ -254,3 +254,31 @@ def pair_final(it, body):
     mid = (c0.get(0, A[0]), c0.get(1, A[1]))
     c1, _ = it.run(body, 1, pre=mid)
     return (c1.get(0, mid[0]), c1.get(1, mid[1]))
+
+
+def partial_state_loop(s, amp):
+    """The loop walks the state vector (its condition bounds an index by amp.size()) but is not a full sweep from 0 with
+    stride 1 and no early exit → reason string; None if it is not a state-vector loop at all."""
+    if s['k'] != 'for' or not SX.is_node(s.get('c')):
+        return None
+    if (amp + '.size()') not in SX.show(s['c']):
+        return None
+    if full_state_loop(s, amp) is not None:
+        return None
+    reasons = []
+    init = s.get('init')
+    if init and init['k'] == 'decls' and init['d']:
+        i0 = SX.strip(init['d'][0].get('init'))
+        while SX.is_node(i0) and i0['k'] in ('cast', 'initlist'):
+            i0 = i0['e'] if i0['k'] == 'cast' else (i0['items'][0] if i0['items'] else None)
+        if not (SX.is_node(i0) and i0.get('k') == 'int' and i0.get('v') == 0):
+            reasons.append('starts at %s instead of 0' % SX.show(init['d'][0].get('init'))[:30])
+    cp = SX.cmp_parts(s['c'])
+    if not cp:
+        reasons.append('has the extra exit condition %s' % SX.show(s['c'])[:60])
+    if any(n['k'] in ('break', 'return') for n in SX.walk(s['body'], into_lambdas=False)):
+        reasons.append('leaves early (break/return)')
+    w = SX.write_target(s['inc']) if SX.is_node(s.get('inc')) else None
+    if not w or w[2] != '++':
+        reasons.append('does not step by one')
+    return '; '.join(reasons) or 'is not a plain full sweep'
